@@ -375,7 +375,7 @@ use std::sync::mpsc::{channel, Receiver, RecvTimeoutError};
 use std::time::Duration;
 
 const WATCHDOG_MS: u64 = 8000;
-const WATCHDOG_AFTER_MS: u64 = 700;
+const WATCHDOG_AFTER_MS: u64 = 300;
 const WATCHDOG_STRIKES: u32 = 3;
 
 struct Worker {
@@ -430,7 +430,8 @@ pub fn guarded(line: &str, direct: fn(&str) -> String) -> String {
         }
         let wk = w.as_mut().unwrap();
         let sent = writeln!(wk.stdin, "{}", line.replace('\n', " ")).and_then(|_| wk.stdin.flush());
-        let limit = if STRIKES.with(|c| c.get()) >= WATCHDOG_STRIKES {
+        // the 10^5-link chains legitimately take a few hundred ms: always the full limit
+        let limit = if STRIKES.with(|c| c.get()) >= WATCHDOG_STRIKES && !line.starts_with("bigchain") {
             WATCHDOG_AFTER_MS
         } else {
             WATCHDOG_MS
